@@ -298,7 +298,30 @@ Definition sorted_view (s : cq) : view Z :=
   sv_finish Z (add_levels (sv_add Z Z.ltb [] (cbb s) 1) 1 (clv s)).
 
 (* ---------- line protocol ---------- *)
-Record reg := mkreg { r_kind : Z; r_sk : cq; r_log : list Z }.   (* r_log: ghost, every accepted item (newest first) *)
+(* r_log: ghost, every accepted item with its multiplicity, sorted by item (a sketch merged with a copy of itself many
+   times has been given 2^40 items: the log must not be a plain list) *)
+Record reg := mkreg { r_kind : Z; r_sk : cq; r_log : list (Z * Z) }.
+
+Fixpoint log_add (x c : Z) (l : list (Z * Z)) : list (Z * Z) :=
+  match l with
+  | [] => [(x, c)]
+  | (y, d) :: r => if x <? y then (x, c) :: l else if x =? y then (y, d + c) :: r else (y, d) :: log_add x c r
+  end.
+Fixpoint log_merge (a b : list (Z * Z)) : list (Z * Z) :=
+  match a with
+  | [] => b
+  | (x, c) :: r => log_merge r (log_add x c b)
+  end.
+Definition log_len (l : list (Z * Z)) : Z := fold_right (fun e a => snd e + a) 0 l.
+Definition log_count (p : Z -> bool) (l : list (Z * Z)) : Z := fold_right (fun e a => (if p (fst e) then snd e else 0) + a) 0 l.
+Definition log_min (l : list (Z * Z)) : Z := match l with [] => 0 | e :: _ => fst e end.
+Definition log_max (l : list (Z * Z)) : Z := fst (last l (0, 0)).
+(* the item at 0-based position i of the sorted expansion *)
+Fixpoint log_nth (i : Z) (l : list (Z * Z)) (d : Z) : Z :=
+  match l with
+  | [] => d
+  | (x, c) :: r => if i <? c then x else log_nth (i - c) r x
+  end.
 
 Definition st := list (Z * reg).
 
@@ -350,7 +373,7 @@ Definition step (s : st) (o e : line) : st * outline :=
   | 2 :: r :: v :: _ =>                                   (* update *)
       match reg_get s r with
       | Some g => run_m (update (r_sk g) v) e s
-                    (fun sk => (reg_set s r (mkreg (r_kind g) sk (v :: r_log g)), (ok, [])))
+                    (fun sk => (reg_set s r (mkreg (r_kind g) sk (log_add v 1 (r_log g))), (ok, [])))
       | None => (s, (refused, []))
       end
   | 3 :: r :: _ =>                                        (* update with NaN (double sketches): ignored *)
@@ -363,7 +386,7 @@ Definition step (s : st) (o e : line) : st * outline :=
       | Some g, Some g2 =>
           if (r =? r2) || negb (r_kind g =? r_kind g2) then (s, (refused, [])) else
           run_m (merge (r_sk g) (r_sk g2)) e s
-            (fun sk => let s' := reg_set s r (mkreg (r_kind g) sk (r_log g2 ++ r_log g)) in
+            (fun sk => let s' := reg_set s r (mkreg (r_kind g) sk (log_merge (r_log g2) (r_log g))) in
                        ((if mode =? 1 then reg_del s' r2 else s'), (ok, [])))
       | _, _ => (s, (refused, []))
       end
@@ -375,7 +398,7 @@ Definition step (s : st) (o e : line) : st * outline :=
           let hdr := [cn sk; compute_retained_items (ck sk) (cn sk); bz (cn sk =? 0); bz (is_estimation_mode sk); ck sk] in
           let mm := if cn sk =? 0 then [] else [cmin sk; cmax sk] in
           (s, (hdr ++ mm ++ [len it] ++ flat_pairs it,
-               [len (r_log g); lmin (r_log g); lmax (r_log g); retained sk]))
+               [log_len (r_log g); log_min (r_log g); log_max (r_log g); retained sk]))
       | None => (s, (refused, []))
       end
   | 6 :: r :: x :: _ =>                                   (* rank numerators: inclusive, exclusive *)
@@ -386,7 +409,7 @@ Definition step (s : st) (o e : line) : st * outline :=
           let v := sorted_view sk in
           (with_sk s r g sk,
            ([rank_num Z Z.ltb v x true; rank_num Z Z.ltb v x false; bz (is_estimation_mode sk)],
-            [count_if (fun y => y <=? x) (r_log g); count_if (fun y => y <? x) (r_log g); len (r_log g)]))
+            [log_count (fun y => y <=? x) (r_log g); log_count (fun y => y <? x) (r_log g); log_len (r_log g)]))
       | None => (s, (refused, []))
       end
   | 7 :: r :: j :: t :: _ =>                              (* quantiles at rank j / 2^t: inclusive, exclusive *)
@@ -398,13 +421,12 @@ Definition step (s : st) (o e : line) : st * outline :=
           let n := v_total v in
           match quantile_w Z v (weight_of_rank j t n true) true, quantile_w Z v (weight_of_rank j t n false) false with
           | Some a, Some b =>
-              let sl := msort 64 (r_log g) in
-              let nl := len sl in
+              let nl := log_len (r_log g) in
               let wi := weight_of_rank j t nl true in
               let we := weight_of_rank j t nl false in
               (with_sk s r g sk,
                ([a; b; bz (is_estimation_mode sk)],
-                [nth (Z.to_nat (Z.max 0 (wi - 1))) sl 0; nth (Z.to_nat (Z.min we (nl - 1))) sl 0]))
+                [log_nth (Z.max 0 (wi - 1)) (r_log g) 0; log_nth (Z.min we (nl - 1)) (r_log g) 0]))
           | _, _ => (s, (refused, []))
           end
       | None => (s, (refused, []))
